@@ -280,6 +280,9 @@ def _worker_inner(job):
         from hypothesis import given, settings, HealthCheck, Phase
         strat = phase.strategy(tier)
 
+        shrink = dict(best=None, until=None)
+        shrink_budget = 30.0 if tier == "quick" else 120.0
+
         @hypothesis.seed(seed_val)
         @settings(max_examples=max(1, n_examples), database=None, deadline=None,
                   report_multiple_bugs=False, derandomize=False,
@@ -289,15 +292,38 @@ def _worker_inner(job):
                                          HealthCheck.large_base_example])
         @given(strat)
         def test(case):
-            if time.time() > deadline:
-                stats.budget_skipped += 1
+            if shrink["best"] is None:
+                if time.time() > deadline:
+                    stats.budget_skipped += 1
+                    return
+            elif time.time() > shrink["until"] and canon(case) != shrink["best"]:
+                # shrinking budget used up: every candidate other than the current
+                # best "passes", so the shrinker stops and replays the best one
+                # (a wall-clock limit must never turn a failure into a pass)
                 return
-            _run_one(mod, ctx, stats, case, phase.name)
+            try:
+                _run_one(mod, ctx, stats, case, phase.name)
+            except Violation:
+                if shrink["best"] is None:
+                    shrink["until"] = time.time() + shrink_budget
+                shrink["best"] = canon(case)
+                raise
 
         try:
             test()
         except Violation as v:
             violations.append(dict(label=v.label, detail=v.detail,
+                                   case=json.loads(canon(v.case)), phase=phase.name))
+        except BaseException as e:
+            v = _violation_in_group(e)
+            if v is None:
+                raise
+            # Hypothesis calls a failure "flaky" when the same input fails once and
+            # passes on a later call: that is what a defect depending on state carried
+            # between calls looks like.  The assertion did fail: report it.
+            violations.append(dict(label=v.label, detail="(not reproduced on an immediate "
+                                   "second call in the same process: depends on the call "
+                                   "history) " + str(v.detail),
                                    case=json.loads(canon(v.case)), phase=phase.name))
     elif phase.kind == "machine":
         import hypothesis
@@ -317,11 +343,28 @@ def _worker_inner(job):
         except Violation as v:
             violations.append(dict(label=v.label, detail=v.detail,
                                    case=json.loads(canon(v.case)), phase=phase.name))
+        except BaseException as e:
+            v = _violation_in_group(e)
+            if v is None:
+                raise
+            violations.append(dict(label=v.label, detail="(flaky under Hypothesis) " +
+                                   str(v.detail), case=json.loads(canon(v.case)),
+                                   phase=phase.name))
         finally:
             shim.set(False)
     return dict(harness_error=herr, stats=stats.as_dict(), violations=violations,
                 excluded_hits=dict(ctx.excluded_hits), known_hits=dict(ctx.known_hits),
                 notes=dict(ctx.notes))
+
+
+def _violation_in_group(e):
+    if isinstance(e, Violation):
+        return e
+    for sub in getattr(e, "exceptions", ()) or ():
+        v = _violation_in_group(sub)
+        if v is not None:
+            return v
+    return None
 
 
 # ----------------------------------------------------------------------------
